@@ -724,6 +724,7 @@ func (rule *RuleExpression) checkExprsIn(s string, pos *Pos, quoted, checkUntrus
 	}
 	offset := 0
 	ts := []typedExpr{}
+	failed := false
 	for {
 		idx := strings.Index(s, "${{")
 		if idx == -1 {
@@ -737,10 +738,15 @@ func (rule *RuleExpression) checkExprsIn(s string, pos *Pos, quoted, checkUntrus
 
 		ty, offsetAfter, ok := rule.checkSemantics(s, line, col, checkUntrusted, workflowKey)
 		if !ok {
-			return nil, false
+			if ty == nil || !checkUntrusted {
+				return nil, false
+			}
+			// In scripts, continue to check the following ${{ }} in the string after a semantic
+			// error (e.g. untrusted input). Otherwise untrusted inputs in them are never reported
+			failed = true
 		}
 		if ty == nil || offsetAfter == 0 {
-			return nil, true
+			return nil, !failed
 		}
 		ts = append(ts, typedExpr{ty, Pos{line, col - 3}})
 
@@ -748,6 +754,9 @@ func (rule *RuleExpression) checkExprsIn(s string, pos *Pos, quoted, checkUntrus
 		offset += offsetAfter
 	}
 
+	if failed {
+		return nil, false
+	}
 	return ts, true
 }
 
